@@ -4,7 +4,7 @@
    the key projection (known_dimensions, available_space) of the LayoutInput, plus compute_root_layout and sequences of passes with the
    per-node counters (queries, hits, lossy hits, evaluations, measure-function calls) of every pass.
    This is what `TaffyTree::compute_layout_with_measure` does WITHOUT the exact-key hook, for every node kind.
-   `Num`-generic, definitions only.  (notes/REALCACHE.md section 6 said how; section 8 reports.)
+   `Num`-generic, definitions only.  (notes/REALCACHE.md section 6 said how; section 7 reports.)
 
      tkey_of           LayoutInput -> (known_dimensions, available_space) as Model/Cache.v's `key`
      tosize            LayoutOutput.size                 t_from_outer   LayoutOutput::from_outer_size
